@@ -411,6 +411,29 @@ func (c *Ctx) normalisedValue(v ssa.Value, depth int) (bool, string) {
 			if _, ok := x.Tuple.(*ssa.Next); ok {
 				return false, "a map/range element of unknown provenance"
 			}
+			// a library wrapper whose result is what Normalize returned (operand(doc, v) = Normalize(resolve(doc, v)))
+			if call, ok := x.Tuple.(*ssa.Call); ok {
+				if g := staticCallee(call); g != nil && c.IsLib(c.declared(g)) && len(c.declared(g).Blocks) > 0 {
+					g = c.declared(g)
+					all, n := true, 0
+					for _, ret := range returnsOf(g) {
+						rv, has := returnedValue(ret, x.Index)
+						if !has {
+							continue
+						}
+						if isNilConst(rv) {
+							continue // the failure return
+						}
+						n++
+						if ok, _ := c.normalisedValue(rv, depth+1); !ok {
+							all = false
+						}
+					}
+					if all && n > 0 {
+						continue
+					}
+				}
+			}
 			return false, "result of a call that is not Normalize"
 		case *ssa.TypeAssert:
 			if ok, why := c.normalisedValue(x.X, depth+1); ok {
@@ -421,6 +444,27 @@ func (c *Ctx) normalisedValue(v ssa.Value, depth int) (bool, string) {
 		case *ssa.Call:
 			return false, "the result of " + c.calleeName(x) + " (may be the raw literal)"
 		case *ssa.Parameter:
+			// an unexported helper's parameter: what its call sites in the library pass
+			g := x.Parent()
+			sites := c.staticCallers(g)
+			if g.Parent() == nil && g.Object() != nil && !g.Object().Exported() && len(sites) > 0 {
+				idx := paramIndex(g, x)
+				allOK := idx >= 0
+				why := ""
+				for _, cs := range sites {
+					if idx < 0 || idx >= len(cs.Common().Args) {
+						allOK = false
+						continue
+					}
+					if ok, w := c.normalisedValue(cs.Common().Args[idx], depth+1); !ok {
+						allOK, why = false, w
+					}
+				}
+				if allOK {
+					continue
+				}
+				return false, "the parameter " + x.Name() + ", which a call site binds to " + why
+			}
 			return false, "the raw parameter " + x.Name()
 		case *ssa.Const:
 			continue
@@ -2696,4 +2740,214 @@ func ruleCMP11(c *Ctx) []Ob {
 		o.add(OK, "comparator", "-", "no integer is converted to float64 in the comparator")
 	}
 	return o.list
+}
+
+// ---------------------------------------------------------------- CMP12
+
+// CMP12: objects are ordered lexicographically by their (key, value) sequence in
+// key order. The object comparator is evaluated abstractly for every pair of key
+// sets over {a, b} and every outcome of comparing the values found under a common
+// key; the sign it returns must be the one the definition gives: at the first
+// position where the sorted key lists differ the smaller key decides, where they
+// agree the first unequal value decides, and a proper prefix sorts first. The
+// sorted key lists (util.MapKeys), map lookups, len and internal.Compare are
+// answered by the rule; the control flow in between is the code's own.
+func ruleCMP12(c *Ctx) []Ob {
+	o := newObs(c, "CMP12")
+	cmp := c.lookupFunc("internal", "Compare")
+	mapKeys := c.lookupFunc("util", "MapKeys")
+	var objCmp *ssa.Function
+	isObj := func(t types.Type) bool {
+		m, ok := t.Underlying().(*types.Map)
+		if !ok {
+			return false
+		}
+		_, isI := m.Elem().Underlying().(*types.Interface)
+		b, isS := m.Key().Underlying().(*types.Basic)
+		return isI && isS && b.Kind() == types.String
+	}
+	for f := range c.comparatorFuncs() {
+		if f.Parent() == nil && len(f.Params) == 2 && isObj(f.Params[0].Type()) && isObj(f.Params[1].Type()) && f.Signature.Results().Len() == 1 && isIntType(f.Signature.Results().At(0).Type()) {
+			objCmp = f
+		}
+	}
+	if objCmp == nil || cmp == nil {
+		o.add(UNDECIDED, "object comparator", "-", "no function (map[string]interface{}, map[string]interface{}) int among the comparator's functions")
+		return softenUndecided(o.list)
+	}
+	pos := relPath(c, objCmp.Pos())
+	sets := [][]string{{}, {"a"}, {"b"}, {"a", "b"}}
+	name := func(ks []string) string { return "{" + strings.Join(ks, ",") + "}" }
+	has := func(ks []string, k string) bool {
+		for _, x := range ks {
+			if x == k {
+				return true
+			}
+		}
+		return false
+	}
+	sign := func(x int64) int {
+		switch {
+		case x < 0:
+			return -1
+		case x > 0:
+			return 1
+		}
+		return 0
+	}
+	for _, k1 := range sets {
+		for _, k2 := range sets {
+			var common []string
+			for _, k := range []string{"a", "b"} {
+				if has(k1, k) && has(k2, k) {
+					common = append(common, k)
+				}
+			}
+			nOut := 1
+			for range common {
+				nOut *= 3
+			}
+			for code := 0; code < nOut; code++ {
+				outcome := map[string]int64{}
+				x := code
+				for _, k := range common {
+					outcome[k] = int64(x%3) - 1
+					x /= 3
+				}
+				// the definition
+				want := 0
+				for i := 0; i < len(k1) && i < len(k2) && want == 0; i++ {
+					switch {
+					case k1[i] < k2[i]:
+						want = -1
+					case k1[i] > k2[i]:
+						want = 1
+					default:
+						want = sign(outcome[k1[i]])
+					}
+				}
+				if want == 0 {
+					want = sign(int64(len(k1) - len(k2)))
+				}
+				key := fmt.Sprintf("%s vs %s", name(k1), name(k2))
+				if len(common) > 0 {
+					var parts []string
+					for _, k := range common {
+						parts = append(parts, fmt.Sprintf("%s:%+d", k, outcome[k]))
+					}
+					key += " values " + strings.Join(parts, " ")
+				}
+				keysOf := func(a aval) ([]string, string, bool) {
+					if a.K == aConst && a.C != nil && a.C.Kind() == constant.String {
+						switch constant.StringVal(a.C) {
+						case "m1":
+							return k1, "m1", true
+						case "m2":
+							return k2, "m2", true
+						}
+					}
+					return nil, "", false
+				}
+				undec := ""
+				te := c.newTagEval()
+				te.descendUnknown = true
+				te.maxVisits = 12
+				te.lookupHook = func(l *ssa.Lookup, m, k aval) ([]aval, bool) {
+					ks, id, ok := keysOf(m)
+					if !ok || k.K != aConst || k.C == nil || k.C.Kind() != constant.String {
+						undec = "a lookup whose map or key is not known"
+						return []aval{{}, {}}, true
+					}
+					kk := constant.StringVal(k.C)
+					if !has(ks, kk) {
+						return []aval{{K: aTag, Tag: nil}, boolConst(false)}, true
+					}
+					return []aval{{K: aConst, C: constant.MakeString(id + ":" + kk)}, boolConst(true)}, true
+				}
+				te.callHookEnv = func(call *ssa.Call, val func(ssa.Value) aval) ([]aval, bool) {
+					cc := call.Common()
+					if b, ok := cc.Value.(*ssa.Builtin); ok && b.Name() == "len" {
+						if ks, _, ok := keysOf(val(cc.Args[0])); ok {
+							return []aval{{K: aConst, C: constant.MakeInt64(int64(len(ks)))}}, true
+						}
+						return nil, false
+					}
+					g := staticCallee(call)
+					if g == nil {
+						return nil, false
+					}
+					switch c.declared(g) {
+					case mapKeys:
+						ks, _, ok := keysOf(val(cc.Args[0]))
+						if !ok {
+							undec = "util.MapKeys of an unknown map"
+							return []aval{{}}, true
+						}
+						sorted := true
+						if len(cc.Args) > 1 {
+							if sv := val(cc.Args[1]); !(sv.K == aConst && sv.C != nil && sv.C.Kind() == constant.Bool && constant.BoolVal(sv.C)) {
+								sorted = false
+							}
+						}
+						if !sorted {
+							undec = "util.MapKeys asked for unsorted keys"
+							return []aval{{}}, true
+						}
+						var l []aval
+						for _, k := range ks {
+							l = append(l, aval{K: aConst, C: constant.MakeString(k)})
+						}
+						return []aval{{K: aList, L: l}}, true
+					case cmp:
+						a, b := val(cc.Args[0]), val(cc.Args[1])
+						sa, sb := "", ""
+						if a.K == aConst && a.C != nil && a.C.Kind() == constant.String {
+							sa = constant.StringVal(a.C)
+						}
+						if b.K == aConst && b.C != nil && b.C.Kind() == constant.String {
+							sb = constant.StringVal(b.C)
+						}
+						// m1:k against m2:k
+						if strings.HasPrefix(sa, "m1:") && strings.HasPrefix(sb, "m2:") && sa[3:] == sb[3:] {
+							return []aval{{K: aConst, C: constant.MakeInt64(outcome[sa[3:]])}}, true
+						}
+						if strings.HasPrefix(sa, "m2:") && strings.HasPrefix(sb, "m1:") && sa[3:] == sb[3:] {
+							return []aval{{K: aConst, C: constant.MakeInt64(-outcome[sa[3:]])}}, true
+						}
+						// values of different keys, or a missing value, compared: the outcome is not one of the table's
+						undec = fmt.Sprintf("internal.Compare applied to %s and %s (not the two values of one key)", a, b)
+						return []aval{{}}, true
+					}
+					return nil, false
+				}
+				outs := te.Eval(objCmp, []aval{{K: aConst, C: constant.MakeString("m1")}, {K: aConst, C: constant.MakeString("m2")}}, 0)
+				bad := ""
+				for _, oc := range outs {
+					if oc.Panic {
+						bad = "panics: " + oc.Why
+						continue
+					}
+					r, ok := constIntOf(oc.Vals[0])
+					if !ok {
+						if undec == "" {
+							undec = "the result is not a constant"
+						}
+						continue
+					}
+					if sign(r) != want {
+						bad = fmt.Sprintf("returns %d, the lexicographic order of the (key, value) sequences gives %+d", r, want)
+					}
+				}
+				switch {
+				case bad != "":
+					o.add(VIOLATED, key, pos, "%s: %s - the comparison is no longer the lexicographic order on sorted (key, value) sequences (nor sign-antisymmetric), and it disagrees with the index keys, which encode exactly that sequence", c.fname(objCmp), bad)
+				case undec != "" || len(outs) == 0:
+					o.add(UNDECIDED, key, pos, "not decided by abstract evaluation: %s", undec)
+				default:
+					o.add(OK, key, pos, "= %+d", want)
+				}
+			}
+		}
+	}
+	return softenUndecided(o.list)
 }
